@@ -10,16 +10,13 @@ Import ListNotations.
 Ltac Zify.zify_post_hook ::= Z.div_mod_to_equations.
 Local Open Scope Z_scope.
 
-Lemma ver_round_as_decimal x : ver_round x = ver_of_decimal ((x * 1000 * 2 + 65536) / (2 * 65536))%N 3.
-Proof. reflexivity. Qed.
-
 Lemma norm_version_ver_round x : (x < 4294967296)%N -> norm_version (ver_round x) = ver_round x.
 Proof.
-  intros Hx. rewrite ver_round_as_decimal.
-  set (k := ((x * 1000 * 2 + 65536) / (2 * 65536))%N).
-  assert (Hk : (k <= 65536000)%N) by (unfold k; lia).
-  destruct (N.eq_dec k 65536000) as [->|Hne]; [vm_compute; reflexivity|].
-  unfold norm_version. rewrite ver_to_milli_of_decimal by lia. reflexivity.
+  intros Hx. change (ver_round x) with (norm_version x).
+  pose proof (ver_to_milli_bound x Hx) as Hk.
+  destruct (N.eq_dec (ver_to_milli x) 65536000) as [E|Hne].
+  - unfold norm_version. rewrite E. vm_compute. reflexivity.
+  - unfold norm_version. rewrite ver_to_milli_of_decimal by lia. reflexivity.
 Qed.
 
 Lemma version_from_string_bound s v : version_from_string s = Some v -> (v < 4294967296)%N.
